@@ -1,6 +1,6 @@
 """C24 triage: prettify renderings that change a literal (hand-built AST = what the parser builds for the quoted script)."""
 import sys, os
-sys.path.insert(0,"/root/vtlstub"); import vtlstub; vtlstub.install(os.environ.get("VTL_SRC","/repo/src"))
+sys.path.insert(0,"/verif/triage"); import vtlstub; vtlstub.install(os.environ.get("VTL_SRC","/repo/src"))
 from vtlengine import AST
 from vtlengine.AST.ASTString import ASTString, _handle_literal
 P=dict(line_start=1,column_start=0,line_stop=1,column_stop=0)
